@@ -12,6 +12,15 @@ COMMON_NOTE = ("Trusted: Lean 4.33 kernel; axioms ⊆ {propext, Classical.choice
 
 # id -> (technique, level text, level note extra, design_ref)
 CHECKS = {
+    "C15": ("Lean 4 proof over ℚ of the affine laws of order statistics and of every modelled estimator (sort under "
+            "monotone/antitone maps, median, percentile, IQR, MAD incl. fallback, Qn, Sn, gapper, variance), of z-score "
+            "equivariance for any law-abiding (loc, scale) pair, of the zero-scale guard and of per-lane axis semantics "
+            "+ exact-rational correspondence + relational oracle (affine maps, per-lane vs per-axis)",
+            "Theorems sortQ_aff_pos/neg, median_aff, percentile_aff, iqr/mad/qn/sn/gapper/variance_aff, "
+            "zscore_equivariant, zscore_divisor_ne_zero, zscore_const, alongAxis_*.",
+            "doublemad, diffcov and astropy's biweight are validated by the correspondence/oracle run only; irrational "
+            "normalising constants are positive rational parameters; float tolerance 1e-9 (float64) / 2e-4 (float32 "
+            "z-scores, conditioning-aware).", "§5 C15"),
     "C14": ("Lean 4 proof over ℚ of the running-filter geometry (symmetric reflection, window placement, output length "
             "for every width), decimators (1-D, 2-D, flat-kernel index arithmetic = 2-D) and the least-squares "
             "normal equations of detrend_1d + exhaustive small-lattice correspondence + definition oracle",
